@@ -34,6 +34,7 @@ var (
 	ErrDBExists          = errors.New("database already exists")
 	ErrDBNotExist        = errors.New("database does not exist")
 	ErrDBIncomplete      = errors.New("database was not created completely (CREATE DATABASE was interrupted)")
+	ErrDBNameInvalid     = errors.New("database name is not a valid directory name")
 	ErrDBNotSelected     = errors.New("database not been selected")
 	ErrFieldAmbiguous    = errors.New("field is ambiguous")
 	ErrFieldNotFound     = errors.New("field not found")
@@ -337,6 +338,9 @@ func (rs *RelationService) Close() error {
 }
 
 func OpenRelation(dbName string, forceWALSync bool) (*RelationService, error) {
+	if err := checkDBName(dbName); err != nil {
+		return nil, err
+	}
 	path, exists, err := dbFilePath(dbName)
 	if err != nil {
 		return nil, err
@@ -396,6 +400,9 @@ func ShowDB() ([]*Row, []*Field, error) {
 }
 
 func CreateDB(dbName string) error {
+	if err := checkDBName(dbName); err != nil {
+		return err
+	}
 	if err := makeDBDir(dbName); err != nil {
 		return fmt.Errorf("error making db dir: %w", err)
 	}
